@@ -107,6 +107,10 @@ class FilterCase(object):
                     self.expect.append(("raw", "ok", impl.state_digest(h.state), idx))
                 except ValueError:
                     self.expect.append(("raw", "err value", impl.state_digest(h.state), idx))
+            elif k == "delregion":
+                self.lines.append("delr " + impl.hexs(ev[1]))
+                removed = h.state.deleteRegion(ev[1])
+                self.expect.append(("raw", "ok %d" % (1 if removed else 0), impl.state_digest(h.state), idx))
             elif k == "g":
                 gcode, _sub = (ev[2], None) if len(ev) > 2 else impl.split_cmd(ev[1])
                 if gcode is None:
